@@ -368,7 +368,7 @@ impl RandGen {
             (cb, 17),                                                 // raw round trip
             (cb, 18),                                                 // increment_strong_count
             (cb, 19),                                                 // decrement_strong_count
-            (if self.adopts_allowed() && class != Class::Full { 1 } else { 0 }, 20), // same-handle self adoption
+            (if self.adopts_allowed() { 1 } else { 0 }, 20), // same-handle self adoption (documented no-op)
             (3, 21),                                                  // upgrade + immediate drop (probe)
             (if self.adopts_allowed() { 4 } else { 0 }, 22),         // link 2-4 objects into a fully recorded ring
             (cb, 23),                                                 // make_mut in place on a stored handle
@@ -582,9 +582,15 @@ impl RandGen {
                 let mut cands = vec![];
                 for &o in &alive {
                     for (k, &t) in w.objs[o as usize].held.iter().enumerate() {
-                        if t == o && (total_rec(w, o, o) < held_count(w, o, o) || class == Class::Elide) {
+                        if t == o {
                             cands.push(HRef::S(o, k));
                         }
+                    }
+                }
+                // ... or through any program handle (no stored handle at all: still a no-op)
+                for &s in &prog {
+                    if w.objs[w.htarget[s] as usize].state == St::Alive {
+                        cands.push(HRef::P(s));
                     }
                 }
                 let &r = self.rng.pick(&cands)?;
@@ -896,6 +902,19 @@ pub fn family_ops(idx: u64, seed: u64, class: Class, max_n: usize) -> (Vec<Op>, 
         }
     };
     let n = b.n;
+    // same-handle self-adoptions through the program's own handle (no stored handle; documented
+    // no-op, as in the repository's leak_adopt_self_noop test)
+    let mut free_loops = 0;
+    if class != Class::NoAdopt {
+        for i in 0..n {
+            if rng.chance(1, 5) {
+                for _ in 0..1 + rng.below(2) {
+                    b.ops.push(Op::Adopt(HRef::P(i), HRef::P(i)));
+                    free_loops += 1;
+                }
+            }
+        }
+    }
     // Weak placement
     let wmode = rng.below(4);
     if wmode & 1 != 0 {
@@ -924,7 +943,7 @@ pub fn family_ops(idx: u64, seed: u64, class: Class, max_n: usize) -> (Vec<Op>, 
     for &d in &order {
         b.ops.push(Op::Drop(d));
     }
-    let desc = format!("{} weak{} last={} keep={}", desc, wmode, last, keep);
+    let desc = format!("{} weak{} last={} keep={} noop-self-adoptions={}", desc, wmode, last, keep, free_loops);
     (b.ops, desc)
 }
 
